@@ -30,7 +30,7 @@ package tstate
 // nothing of the view's own state changed
 //@ spec func sameView(ts *TStateView, o *TStateView) bool = ts.pendingChangedKeys == o.pendingChangedKeys && ts.writes == o.writes && ts.allocates == o.allocates && len(ts.ops) == len(o.ops)
 
-//@ func (*TState).getChangedValue props C04 C03
+//@ func (*TState).getChangedValue props C04 C03 C06
 //@   ensures result1 == has(ts.changedKeys, key)
 //@   ensures result1 ==> result2 == ts.changedKeys[key].hasValue
 //@   ensures result1 && result2 ==> str(result0) == str(ts.changedKeys[key].value)
@@ -40,29 +40,29 @@ package tstate
 //@   ensures result == state.Scope.Has(ts.scope, k, perm)
 
 // reads return the most recent write, else the block's pending change, else the parent state
-//@ func (*TStateView).getValue props C04 C03
+//@ func (*TStateView).getValue props C04 C03 C06
 //@   ensures (err == nil) == visExists(ts, key)
 //@   ensures err == nil ==> str(result0) == visVal(ts, key)
 //@   ensures visAbsent(ts, key) == (err == database.ErrNotFound)
 
-//@ func (*TStateView).GetValue props C04 C03 C05
+//@ func (*TStateView).GetValue props C04 C03 C06 C05
 //@   ensures !state.Scope.Has(ts.scope, key, state.Read) ==> err == ErrInvalidKeyOrPermission
 //@   ensures state.Scope.Has(ts.scope, key, state.Read) ==> (err == nil) == visExists(ts, str(key))
 //@   ensures err == nil ==> str(result0) == visVal(ts, str(key))
 //@   ensures state.Scope.Has(ts.scope, key, state.Read) && visAbsent(ts, str(key)) ==> err == database.ErrNotFound
 
-//@ func (*TStateView).isUnchanged props C04 C03
+//@ func (*TStateView).isUnchanged props C04 C03 C06
 //@   ensures err == nil ==> result0 == (underExists(ts, key) == nexists && (nexists ==> underVal(ts, key) == str(nval)))
 //@   ensures (err == nil) == (has(ts.ts.changedKeys, key) || stErr(ts, key) == nil || stErr(ts, key) == database.ErrNotFound)
 
-//@ func chunks props C04 C03
+//@ func chunks props C04 C03 C06
 //@   ensures isnil(result) == !has(m, key)
 //@   ensures has(m, key) ==> *result == m[key]
 
 // Insert: on success the key reads back as the value and no other key changes; on failure
 // nothing changes (C05: an undeclared or under-privileged access fails without changing state;
 // C40: a value larger than the key's chunk suffix is rejected).
-//@ func (*TStateView).Insert props C04 C03 C05 C40
+//@ func (*TStateView).Insert props C04 C03 C06 C05 C40
 //@   requires wf(ts) && RI(ts)
 //@   modifies ts.pendingChangedKeys[], ts.writes[], ts.allocates[], ts.ops
 //@   ensures RI(ts)
@@ -78,7 +78,7 @@ package tstate
 //@   ensures old(visAbsent(ts, str(key))) && !state.Scope.Has(ts.scope, key, state.Allocate) ==> err != nil
 
 // Remove: on success the key reads as absent and no other key changes; on failure nothing changes.
-//@ func (*TStateView).Remove props C04 C03 C05
+//@ func (*TStateView).Remove props C04 C03 C06 C05
 //@   requires wf(ts) && RI(ts)
 //@   modifies ts.pendingChangedKeys[], ts.writes[], ts.allocates[], ts.ops
 //@   ensures RI(ts)
@@ -105,7 +105,7 @@ package tstate
 // (unchanged if there is none).  Together with the record postconditions of Insert/Remove
 // (pendIs(old state, key, new record)) and their frame (other keys untouched), induction over the
 // history gives: the values visible after Rollback(r) are exactly those visible when the log had r entries.
-//@ func (*TStateView).Rollback props C04 C03
+//@ func (*TStateView).Rollback props C04 C03 C06
 //@   requires wf(ts) && RI(ts) && 0 <= restorePoint && restorePoint <= len(ts.ops)
 //@   modifies ts.pendingChangedKeys[], ts.writes[], ts.allocates[], ts.ops
 //@   loop 1 invariant restorePoint - 1 <= i && i <= old(len(ts.ops)) - 1 && len(ts.ops) == old(len(ts.ops)) && wf(ts)
@@ -118,5 +118,5 @@ package tstate
 //@   ensures forall q string, j int :: restorePoint <= j && j < old(len(ts.ops)) && str(old(ts.ops[j]).k) == q && (forall j2 int :: restorePoint <= j2 && j2 < j ==> str(old(ts.ops[j2]).k) != q) ==> pendIs(ts, q, old(ts.ops[j]))
 //@   ensures forall q string :: (forall j int :: restorePoint <= j && j < old(len(ts.ops)) ==> str(old(ts.ops[j]).k) != q) ==> has(ts.pendingChangedKeys, q) == old(has(ts.pendingChangedKeys, q)) && ts.pendingChangedKeys[q] == old(ts.pendingChangedKeys[q])
 
-//@ func (*TStateView).OpIndex props C04 C03
+//@ func (*TStateView).OpIndex props C04 C03 C06
 //@   ensures result == len(ts.ops)
